@@ -37,8 +37,8 @@ def function_level(chk, rng, binp):
         t = gen_text(rng, 4096)
         lines.append("event " + hx(t)); mlines.append("trunc event " + hx(t)); meta.append(("event", t))
         if i % 40 == 39:
-            lines.append("flush"); mlines.append(None); meta.append(("flush", None))
-    lines.append("flush"); mlines.append(None); meta.append(("flush", None))
+            lines.append("flush 40"); mlines.append(None); meta.append(("flush", None))
+    lines.append("flush %d" % (n % 40)); mlines.append(None); meta.append(("flush", None))
     for i in range(n):
         t = gen_text(rng, 1024)
         lines.append("status " + hx(t)); mlines.append("trunc status " + hx(t)); meta.append(("status", t))
